@@ -107,3 +107,39 @@ func vpH_C01_T_late_create_answer() {
 	vpAuditLog(s.st, "a", false, 0, false)
 	_ = s.e.Stop()
 }
+
+// vpH_C01_T_stop_during_create: the instance is stopped while its winning Create is still unanswered (the answer
+// takes 300 ms); the orphaned record is then legitimately taken over by a priority-30 instance. When the answer
+// reaches the stopped instance it claims nothing — and it mutates nothing: in particular it does not delete a
+// record that is no longer its own.
+func vpH_C01_T_stop_during_create() {
+	H := time.Second
+	vpSetOpt("rand-fixed", 1)
+	s := vpFollowingInstance(H, nil)
+	time.Sleep(700 * time.Millisecond)
+	vpQuiesce()
+	s.kv.createRespLat = 300 * time.Millisecond
+	s.kv.opLeft = 40
+	applied := false
+	s.kv.afterApply = func(op string) {
+		if op == "create" && s.st.live() && s.st.writer == "a" {
+			applied = true
+		}
+	}
+	s.st.write("env:other", "delete", nil, true, 0)
+	time.Sleep(100 * time.Millisecond) // jitter 55 ms: the Create has been applied, its answer is on the way
+	vpQuiesce()
+	if !applied {
+		vpEndPath("create-not-applied")
+	}
+	variant := vpChoose("variant", 2)
+	_ = vpDoStop(s.e, variant)
+	s.st.noEvents = true
+	s.st.write("env:z", "update", vpRecMk("z", "tok-z", 30), false, s.st.lastSeq)
+	time.Sleep(H)
+	vpQuiesce()
+	vpCover("C01.stop-during-create")
+	vpAssert("C01.mut.delete-own", s.st.live() && s.st.writer == "env:z")
+	vpAssert("C09.no-claim-after-stop", !s.e.IsLeader())
+	vpAuditLog(s.st, "a", false, 0, false)
+}
